@@ -67,6 +67,24 @@ CLAIMED['C06'] = dict(design='2/C06', text='Instance::evaluate_samples (Samples:
     'driver-computed per-sample evaluation and that the objective and feasibility tables are keyed by exactly the submitted ids.',
     note='R-model; in-bound states; the defect found by this check (samples omitting an unused variable made SampleSet::get fail) was repaired by a fix: commit, see known_findings.json; '
     'HashMap iteration orders explored only for the 1-sample harness; more than 3 samples outside (property: 8).')
+CLAIMED['C08'] = dict(design='2/C08', text='Instance::validate and ParametricInstance::validate are executed for every combination of variable / parameter / constraint ids and used '
+    'ids from small defined/undefined sets (single and double faults are regions of one explored space): Ok iff ids unique and used ids defined. TryFrom<v1::Instance> (all Parse impls, '
+    'as_variable_id / as_constraint_id, Bound::new) is executed with fully symbolic 32-bit sense/kind/equality fields, every optional message field present or absent, symbolic bound '
+    'endpoints incl. NaN/+-inf, hints and dependencies over defined/undefined/repeated ids: z3 proves Ok iff the driver predicate, and that the typed view keeps ids, bounds (unspecified = '
+    'unbounded, [0,1] for binaries) and fixed values.',
+    note='R-model for bounds; two defects found: unspecified bound read as [0,0] (repaired by a fix: commit) and undefined variable ids inside functions accepted by the typed conversion '
+    '(recorded in known_findings.json, printed as KNOWN-FINDING); BoundError::check is additionally decided under true IEEE-754 by the Kani harness bound_new_accepts_exactly_valid (C16 run).')
+CLAIMED['C12'] = dict(design='2/C12', text='Instance::log_encode is executed symbolically with bounds on the half-integer grid k/2, |k|<=2^21 (symbolic integers), every kind, missing / infinite / NaN '
+    'bounds and an unknown id; ceil(log2(.)) is modelled by bracketing (one path per bit count 1..21). z3 proves: registered binaries (fresh consecutive ids, kind binary, [0,1], tagged), '
+    'constant = ceil(l), coefficients sum to the width and their subset sums are exactly the integers of the range (directly for < 64 values, complete-sequence criterion above), '
+    'a single-integer range gives a constant, every error condition gives Err within the step budget.',
+    note='R-model; libm log2 bracketing assumption listed in evidence; the defect found (no termination for an infinite bound) was repaired by a fix: commit.')
+CLAIMED['C13'] = dict(design='2/C13', text='convert_inequality_to_equality_with_integer_slack and add_integer_slack_to_inequality (with content_factor, evaluate_bound, Bound arithmetic, '
+    'as_integer_bound, relax_constraint) are executed on linear and bilinear constraints with listed concrete integer/dyadic coefficients, symbolic integer boxes in [-3,3], symbolic integer '
+    'points: z3 proves f(x)<=0 <=> some integer slack inside the new bound satisfies the new equality (closed form s=-f(x)/b), the projection property and reported b for the additive slack, '
+    'always-true => moved unchanged and really always true on the box, infeasible error => never true on the box, and that rejected calls leave the instance unchanged.',
+    note='R-model; coefficients concrete (Rational64::approximate_float is a concrete model, differentially validated); non-dyadic rationals outside; the defect found (equality constraints '
+    'not rejected) was repaired by a fix: commit.')
 NOT_APPLICABLE = {
     'C20': 'artifact round-trip lives in ocipkg/tar/sha2/serde_json/chrono and the file system: none of it is in the crate MIR and all of it is foreign/IO under Kani; a model would verify the model, not the code',
 }
